@@ -100,7 +100,7 @@ func c10View(pw *vh.PoolWorld, cast *vh.Cast) string {
 		}
 	}
 	sort.Strings(paid)
-	fmt.Fprintf(&b, " paid=%v", paid)
+	fmt.Fprintf(&b, " paid=%v registry=%s", paid, pw.RegistryKey())
 	return b.String()
 }
 
@@ -117,6 +117,7 @@ func c10Run(driver string, ops []string, perm []int) (outcomes []string, view st
 			after0[i] = true
 		}
 		op = strings.TrimPrefix(op, "then:")
+		op = strings.TrimPrefix(op, "first:")
 		f := strings.Fields(op)
 		nonce := baseNonce + int64(1+i)
 		if strings.HasPrefix(op, "dup:") { // same request as the previous op
@@ -134,6 +135,12 @@ func c10Run(driver string, ops []string, perm []int) (outcomes []string, view st
 			then = append(then, i)
 		}
 	}
+	// "first:" requests come before everything else, one at a time
+	for i, op := range ops {
+		if strings.HasPrefix(op, "first:") {
+			res[i] = calls[i]()
+		}
+	}
 	defer func() {
 		for _, i := range then {
 			res[i] = calls[i]()
@@ -146,7 +153,9 @@ func c10Run(driver string, ops []string, perm []int) (outcomes []string, view st
 	}()
 	if perm != nil {
 		for _, i := range perm {
-			res[i] = calls[i]()
+			if !strings.HasPrefix(ops[i], "first:") {
+				res[i] = calls[i]()
+			}
 		}
 	} else {
 		var fns []func()
@@ -154,7 +163,7 @@ func c10Run(driver string, ops []string, perm []int) (outcomes []string, view st
 		var names []string
 		for i := range calls {
 			i := i
-			if strings.HasPrefix(ops[i], "then:") {
+			if strings.HasPrefix(ops[i], "then:") || strings.HasPrefix(ops[i], "first:") {
 				continue
 			}
 			names = append(names, ops[i])
@@ -182,8 +191,16 @@ func c10Call(pw *vh.PoolWorld, cast *vh.Cast, f []string, nonce int64) func() er
 		}
 		return func() error { vsched.Advance(d); return nil }
 	}
+	if f[0] == "close" { // the connection drops: the server's disconnect callback
+		svc := pw.Host(f[1]).Service()
+		return func() error { return pw.Pool.CloseRemote(svc) }
+	}
 	id := cast.ByName[f[1]]
 	switch f[0] {
+	case "host": // a host (re)registers on the named connection
+		hctx := vh.CtxWith(pw.Host(f[2]).Service())
+		c := vh.NewCall("vipnode_host", id, nonce, vh.DefaultParam("vipnode_host", id.NodeID))
+		return func() error { _, err := c.Invoke(pw, hctx); return err }
 	case "upd":
 		var peers []string
 		if f[2] != "-" {
@@ -250,6 +267,12 @@ var c10Scenarios = map[string][]string{
 	"three-way":                    {"upd C1 H1", "upd C2 H1", "link W1 H1"},
 	"withdraw-link-update":         {"withdraw W1", "link W1 C2", "upd C2 H1"},
 	"two-withdraws-one-link":       {"withdraw W1", "withdraw W1", "link W1 H2"},
+	// a host's connection drops while the same host registers again on a new one, and while a
+	// client asks for hosts; afterwards a client asks again
+	"close-vs-rehost":      {"first:host H1 connA", "close connA", "host H1 connB", "then:peer C2"},
+	"close-vs-rehost-same": {"first:host H1 connA", "close connA", "host H1 connA", "then:peer C2"},
+	"close-vs-peer":        {"first:host H1 connA", "first:host H2 connB", "close connA", "peer C2", "then:peer C2"},
+	"close-vs-host-update": {"first:host H1 connA", "close connA", "upd H1 -", "then:peer C2"},
 }
 
 func c10Serial(driver, scen string, bound int) vh.Unit {
